@@ -1,4 +1,5 @@
 import MirVerif.Props.C19.Htab
 import MirVerif.Props.C19.Bitmap
 import MirVerif.Props.C19.Seq
-/-! Property theorems for C19 live in the three files imported above. -/
+import MirVerif.Props.C19.Dataflow
+/-! Property theorems for C19 live in the four files imported above. -/
